@@ -34,26 +34,34 @@ try:
     demos = [f for f in glob.glob(os.path.join(d, "*")) if os.path.basename(f) not in ("patch.diff", "meta.json")]
     demo_cmd = meta.get("demo_cmd", "")
     def run_demo(root):
-        # copy demo files where demo_cmd expects them: try to infer package dir from the demo_cmd or meta
+        import re as _re
+        cmd0 = demo_cmd.split("(env:")[0]
+        toks = cmd0.replace("&&", " ").split()
+        pkg = None
+        for tok in toks:
+            t = tok.rstrip("/")
+            if t.startswith("./") and os.path.isdir(os.path.join(root, t)):
+                pkg = t
+        if pkg is None:
+            for tok in toks:  # cp target such as fbb/ or fbb/zz_seed_demo_test.go
+                t = tok.split("/zz_")[0].rstrip("/")
+                if t and not t.startswith("/") and os.path.isdir(os.path.join(root, t)):
+                    pkg = "./" + t
+        if meta.get("demo_dir"):
+            pkg = "./" + meta["demo_dir"].strip("./")
+        if pkg is None:
+            pkg = "."
         for f in demos:
-            dst = None
-            for tok in demo_cmd.replace("&&", " ").split():
-                if tok.startswith("./") and os.path.isdir(os.path.join(root, tok)):
-                    dst = os.path.join(root, tok)
-            if meta.get("demo_dir"):
-                dst = os.path.join(root, meta["demo_dir"])
-            if dst is None:
-                dst = root
             if os.path.isdir(f):
-                shutil.copytree(f, os.path.join(dst, os.path.basename(f)), dirs_exist_ok=True)
+                shutil.copytree(f, os.path.join(root, pkg, os.path.basename(f)), dirs_exist_ok=True)
             else:
-                shutil.copy(f, dst)
-        cmd = demo_cmd
-        # strip any leading "cp ... &&" the agent wrote and cd to root
-        parts = [p.strip() for p in cmd.split("&&")]
-        parts = [p for p in parts if not p.startswith("cp ") and not p.startswith("cd ")]
-        cmd = " && ".join(parts).replace("go test", "$GO test") if "$GO" not in cmd and GO not in cmd else " && ".join(parts)
-        return sh(cmd, root)
+                shutil.copy(f, os.path.join(root, pkg))
+        m = _re.search(r"-run[= ]+(\S+)", cmd0)
+        pat = m.group(1).strip("'\"") if m else "Seed"
+        race = "-race " if "-race" in cmd0 else ""
+        if any(f.endswith("main.go") for f in demos) and "go run" in cmd0:
+            return sh(cmd0.split("&&")[-1].replace("go run", "$GO run") if "$GO" not in cmd0 else cmd0.split("&&")[-1], root)
+        return sh("$GO test -vet=off -count=1 %s-run '%s' %s" % (race, pat, pkg), root)
     rc1, out1 = run_demo(mut)
     rc2, out2 = run_demo(clean)
     res["demo_fails_with_patch"] = rc1 != 0
